@@ -58,4 +58,20 @@ PROPS = {
              "directory compared byte for byte before/after the rejected open; same history with and without the pre-created tree (real library only)",
         assumptions=["JSON rendering/parsing of db_settings.json is serde_json's (trusted); the model stores the typed settings document",
                      "the pre-created tree is exercised on the real library only (the list-based model is quadratic in 65,536 directories)"]),
+    "C04": dict(
+        suites=["conc"], tags={"dangling", "nofail"},
+        rule="K6: small concurrent programs (2-4 threads, puts/removes/range removes/reads/checkpoints/clean-up over 2-3 keys and 2-4 contents incl. same key and same "
+             "content, pre-existing shared blobs and orphans) under schedules chosen by the Coq model at the granularity of lock acquisitions and filesystem calls; "
+             "after every step: every indexed key's blob exists; distinct = distinct (thread, point) step sequences"),
+    "C05": dict(
+        suites=["conc"], tags={"read_atomic", "nofail"},
+        rule="K6 schedules with readers parked between lookup and blob open; each read result must be a value the key held during the call"),
+    "C15": dict(
+        suites=["conc"], tags={"stuck"},
+        rule="K6/K7: every worker reaches its next scheduling point within 10 s under every schedule; lock bits (pending_intents, state, wal) at every point equal the model's"),
+    "C11": dict(
+        suites=["race"], tags={"exclusive", "loser_modifies", "release"},
+        rule="K9: random handle life-cycle scripts (opens with equal and differing configuration, clones, OrphanStats kept alive, drops, "
+             "child processes holding the store, kill -9, 2-8 racing threads, 2-4 racing processes); every losing open is checked for "
+             "AlreadyOpened, an identical directory and a call trace of exactly `create LOCK`"),
 }
